@@ -142,6 +142,25 @@ def unitsOf (wrap : Option Int) (f : Proto → Loc) (st : State) (lone : List Pr
   let ls ← lone.mapM fun p => do pure (⟨[p], ← span wrap f [p]⟩ : U)
   pure (cs ++ ls)
 
+/-- all pairs (earlier, later) of a list -/
+def allPairs {α : Type} : List α → List (α × α)
+  | [] => []
+  | a :: rest => rest.map (fun b => (a, b)) ++ allPairs rest
+
+/-- for every two units whose spans overlap, the union of their members: the sets whose chains
+    (`Linked`) are the documented "transitive groups" of the interleaved / neighbouring kinds -/
+def overlapGroups (units : List U) : List (List Proto) :=
+  ((allPairs units).filter fun x => locationsOverlap x.1.span x.2.span).map fun x => x.1.members ++ x.2.members
+
+/-- for every two protoclusters sharing a defining gene, the pair: chains are the hybrid groups -/
+def shareGroups (ps : List Proto) : List (List Proto) :=
+  ((allPairs ps).filter fun x => x.1.defs.any fun g => x.2.defs.contains g).map fun x => [x.1, x.2]
+
+/-- candidates as units with their full extent -/
+def candUnits (cs : List Cand) : List U := cs.map fun c => ⟨c.members, c.loc⟩
+/-- lone protoclusters as units -/
+def protoUnits (f : Proto → Loc) (ps : List Proto) : List U := ps.map fun p => ⟨[p], f p⟩
+
 /-- classes with at least two units, as member lists -/
 def bigClasses (us : List U) : List (List U) :=
   (classesOf (fun (a b : U) => locationsOverlap a.span b.span) us).filter fun c => c.length ≥ 2
